@@ -27,6 +27,15 @@ CHECKS = {
             "Trusted: Coq kernel, translator, harness; globset/ignore semantics and Path::extension transcribed and sampled. No axioms.",
             "Rocq/Coq proof (parametric in the matcher) + differential correspondence (code / model / formula)",
             "DESIGN.md section 6 C11"),
+    "C12": (True,
+            "Coq proofs over all 64 flag combinations and arbitrary lists of discovered project / global files and explicit --ignore-file entries: "
+            "explicit files always reach the filterer at global scope; a discovered file is selected under a flag set iff it is selected with no flags "
+            "and the flag set does not name its class (exact membership characterisation of dirs::ignores + the no-discover short-circuit); built-in "
+            "defaults removed exactly by --no-default-ignore / --ignore-nothing (expansion translated from the source). Exhaustive 64 x 7 differential "
+            "run of the real CLI code (clap parse, dirs::ignores, WatchexecFilterer) in a sandbox project. One genuine defect found and repaired.",
+            "Trusted: Coq kernel, translator, harness; discovery results are inputs of the model; clap/gix_config exercised only. No axioms.",
+            "Rocq/Coq proof (all flag sets x arbitrary source lists) + exhaustive differential correspondence over flags x explicit options",
+            "DESIGN.md section 6 C12"),
     "C16": (True,
             "Coq proofs: Debug-name table round trip over the source-translated fs-kind family (all 41 kinds), Tag->SerdeTag->Tag identity "
             "over the full integer ranges, SerdeTag<->JSON-tree and whole-event round trips (any tags, any sorted metadata map), "
